@@ -319,7 +319,16 @@ func NewFlvSub(s *inproc.Server, app, nameWithQuery string, ws bool) *Consumer {
 	if i := bytes.IndexByte([]byte(nameWithQuery), '?'); i >= 0 {
 		name, query = nameWithQuery[:i], nameWithQuery[i:]
 	}
-	conn := s.HttpSub("/"+app+"/"+name+".flv"+query, ws)
+	return newFlvSubOn(s.HttpSub("/"+app+"/"+name+".flv"+query, ws), ws)
+}
+
+// NewFlvSubStalled is NewFlvSub for a peer whose receive window is closed from the start: lal admits it, queues
+// what it hands to the session, and can deliver nothing until Conn.SetRecvWindow(-1) opens the window.
+func NewFlvSubStalled(s *inproc.Server, app, name string, ws bool) *Consumer {
+	return newFlvSubOn(s.HttpSubWindow("/"+app+"/"+name+".flv", ws, 0), ws)
+}
+
+func newFlvSubOn(conn *memconn.Conn, ws bool) *Consumer {
 	kind := "flv"
 	if ws {
 		kind = "wsflv"
